@@ -892,9 +892,51 @@ def run(ctx):
 
     _h4(ctx, m, ts, results, handles, props_of)
     _reset_releases_all(ctx, m, ts, handles, props_of)
+    _id_zero(ctx, m, handles, props_of)
     _oneshot_expiry(ctx, m, handles, props_of)
     ctx.table('C20', 'RF3.release_all', dict((k, sorted('%s.%s' % f for f in fl)) for k, fl in release_all(ts).items()))
     return ts
+
+
+def _id_zero(ctx, m, handles, props_of):
+    """H6: action ids start at 0 - the first action taken from the pool (often the very service under test) has id 0.  A
+    test of a handle against a constant must treat 0 like every other valid id: a guard `h > 0` skips the delete / the
+    re-arm for exactly that action."""
+    n = 0
+    for fname, fn in sorted(m.funcs.items()):
+        g = m.cfg(fname)
+        for node in g.nodes:
+            if node.kind != 'br' or node.x is None:
+                continue
+            x = strip(node.x)
+            if x.k != 'bin' or x.op not in ('<', '>', '<=', '>=', '==', '!='):
+                continue
+            a, b = x.kids
+            ca, cb = const_eval(a, m), const_eval(b, m)
+            if cb is not None and ca is None:
+                op, e, c = x.op, strip(a), cb
+            elif ca is not None and cb is None:
+                op, e, c = {'<': '>', '>': '<', '<=': '>=', '>=': '<=', '==': '==', '!=': '!='}[x.op], strip(b), ca
+            else:
+                continue
+            fld = _last_field(e)
+            if fld is None or not handles.is_handle(fld):
+                continue
+            n += 1
+
+            def cmpv(v):
+                return {'<': v < c, '>': v > c, '<=': v <= c, '>=': v >= c, '==': v == c, '!=': v != c}[op]
+            props = props_of(fld, ['C10'])
+            site = '%s: %s' % (m.loc(fname, node.line), show(x))
+            if cmpv(0) == cmpv(1) == cmpv(32767):
+                ctx.ob(props, 'RF3-H6', fname, site, 'id 0 is treated like every other valid id')
+            else:
+                ctx.ob(props, 'RF3-H6', fname, site, None)
+                ctx.find(props, 'RF3-H6', fname, 'H6:%s.%s:id-zero' % fld, m.loc(fname, node.line),
+                         '%s separates action id 0 from the other valid ids: the action that got the first slot of the pool is '
+                         'not deleted / not recognised as running by this guard' % show(x), note=not props)
+    ctx.inst('RF3.handle-comparisons', n)
+    ctx.require_min(sorted(set(p for v in HANDLE_PROPS.values() for p in v)), 'RF3-H6', n, 10, 'comparisons of timer handles with constants')
 
 
 def _storing_nodes(m, fname, fld, memo, depth=0):
